@@ -905,6 +905,17 @@ func (it *interp) branch(fr *frame, target uint32) {
 			}
 			fr.cons = st[:k]
 			handled = true
+			// the merge block of an inner selection may at the same time be the continue target
+			// of the enclosing loop
+			for j := k - 1; j >= 0; j-- {
+				if st[j].kind == cLoop {
+					if st[j].cont == ti && !st[j].inCont {
+						st[j].inCont = true
+						fr.cons = st[:j+1]
+					}
+					break
+				}
+			}
 		case e.kind == cLoop && ti == e.cont:
 			if !it.innermostLoop(st, k) {
 				it.trap("malformed control flow: branch to continue target %%%d of a loop that is not the innermost", target)
